@@ -401,6 +401,44 @@ theorem index_diff_characterisation (idxs idxs' : List Idx) (hn : AllNamed idxs)
       have hnm : j ∉ ex := by simpa using hex
       simp [hnm, hany, hc]
 
+/-- **check_diff_characterisation** (any two check lists): a check of the current table is dropped when
+no desired check matches it (same name, or – for an unnamed one – same expression), modified when the
+first match has another expression; a desired check is added when no current check matches it. -/
+theorem check_diff_characterisation (cks cks' : List Check) (c : TChange) :
+    c ∈ checksDiff cks cks' ↔
+      (∃ c1 ∈ cks, cks'.find? (checkMatch c1) = none ∧ c = .dropCheck c1) ∨
+      (∃ c1 ∈ cks, ∃ c2, cks'.find? (checkMatch c1) = some c2 ∧ c1.expr ≠ c2.expr ∧ c = .modifyCheck c1 c2) ∨
+      (∃ c1 ∈ cks', (∀ x ∈ cks, checkMatch c1 x = false) ∧ c = .addCheck c1) := by
+  unfold checksDiff
+  rw [List.mem_append, List.mem_filterMap, List.mem_filterMap]
+  constructor
+  · rintro (⟨c1, h1, hx⟩ | ⟨c1, h1, hx⟩)
+    · cases hf : cks'.find? (checkMatch c1) with
+      | none => rw [hf] at hx; simp at hx; exact Or.inl ⟨c1, h1, hf, hx.symm⟩
+      | some c2 =>
+        rw [hf] at hx
+        simp only at hx
+        by_cases he : (c1.expr == c2.expr) = true
+        · simp [he] at hx
+        · have he' : (c1.expr == c2.expr) = false := by simpa using he
+          simp only [he', Bool.false_eq_true, if_false, Option.some.injEq] at hx
+          exact Or.inr (Or.inl ⟨c1, h1, c2, hf, by simpa using he', hx.symm⟩)
+    · by_cases ha : cks.any (checkMatch c1) = true
+      · simp [ha] at hx
+      · have ha' : cks.any (checkMatch c1) = false := by simpa using ha
+        simp only [ha', Bool.false_eq_true, if_false, Option.some.injEq] at hx
+        exact Or.inr (Or.inr ⟨c1, h1, by simpa [List.any_eq_false] using ha', hx.symm⟩)
+  · rintro (⟨c1, h1, hf, hc⟩ | ⟨c1, h1, c2, hf, hne, hc⟩ | ⟨c1, h1, hall, hc⟩)
+    · exact Or.inl ⟨c1, h1, by rw [hf]; simp [hc]⟩
+    · refine Or.inl ⟨c1, h1, ?_⟩
+      rw [hf]
+      have : (c1.expr == c2.expr) = false := by simpa using hne
+      simp [this, hc]
+    · refine Or.inr ⟨c1, h1, ?_⟩
+      have : cks.any (checkMatch c1) = false := by
+        rw [List.any_eq_false]; intro x hx; simp [hall x hx]
+      simp [this, hc]
+
 /-- **table_diff_characterisation**: the diff of two tables is exactly the concatenation of the attribute,
 check, column, primary-key, index and foreign-key changes – so the characterisations above describe
 every `ModifyTable` for arbitrary simultaneous edits. -/
